@@ -365,6 +365,10 @@ fn parse_trace(text: &str, root: &str) -> (Vec<Ev>, bool, bool, Vec<(String, usi
         let injected = ret_txt.contains("(INJECTED)");
         if injected { inj_any = true; }
         let is_main = main_pid.as_deref() == Some(pid);
+        // When the process is killed inside a call of the main thread, strace closes the open
+        // call of every other thread with `= ?` and (observed under load with -f) may print the
+        // main thread's call text for them: such lines describe no call of their own.
+        if ret_txt.starts_with('?') && !is_main { continue; }
         let ordinal = if is_main {
             let c = counts.entry((pid.to_string(), name.clone())).or_insert(0);
             *c += 1;
